@@ -142,32 +142,49 @@ class Impl:
         else:
             raise ValueError(text)
 
+    def wstate(self, r):
+        if r["state"] == "r":
+            return f"r{r['v']}@{fmt_t(r['at'])}"
+        if r["state"] == "x":
+            return f"x@{fmt_t(r['at'])}"
+        if "t0" not in r:
+            return "n"
+        return "w" + ("-" if r["timeout"] is None else fmt_t(r["t0"] + r["timeout"]))
+
     def snap(self):
-        parts = []
+        data = []
         for n in range(3):
             v = _up(self.em.data.get(f"n{n}"))
-            parts.append(f"D{n}={'-' if v is None else v}")
+            data.append("-" if v is None else str(v))
+        ts = []
         for i, t in enumerate(self.dtasks):
             if t.done():
                 if t.exception() is not None:
                     self.anomalies.append(f"dispatch task {i} raised {type(t.exception()).__name__}")
-                parts.append(f"T{i}=d")
+                ts.append("d")
             elif i in self.pending:
-                parts.append(f"T{i}=s{self.pending[i][1]}")
+                ts.append(f"s{self.pending[i][1]}")
             else:
-                parts.append(f"T{i}=c")
-        for j, r in enumerate(self.waiters):
-            if r["state"] == "r":
-                parts.append(f"W{j}=r{r['v']}@{fmt_t(r['at'])}")
-            elif r["state"] == "x":
-                parts.append(f"W{j}=x@{fmt_t(r['at'])}")
-            else:
-                parts.append(f"W{j}=w")
-        parts.append("@" + fmt_t(self.ticks()))
-        self.snaps.append(" ".join(parts))
+                ts.append("c")
+        ws = [self.wstate(r) for r in self.waiters]
+        self.snaps.append("/".join([str(self.op_index), fmt_t(self.ticks()), ",".join(data), ",".join(ts) or "-", ",".join(ws) or "-"]))
         self.snap_info.append(dict(op=self.op_index, now=self.ticks(), data={k: _up(x) for k, x in self.em.data.items()},
                                    done=[t.done() for t in self.dtasks],
                                    waiting=[r["state"] == "c" for r in self.waiters]))
+
+    def wmeta(self):
+        out = []
+        for r in self.waiters:
+            if "t0" not in r:
+                out.append("0:0:0:n")
+            else:
+                out.append(f"1:{fmt_t(r['t0'])}:{1 if r.get('had_value') else 0}:{self.wstate(r)}")
+        return ",".join(out) or "-"
+
+    def obs_text(self):
+        """the observation in the line-protocol format of `c13judge`"""
+        log = ",".join(f"{t}.{cb}.{v}" for t, cb, v in self.log) or "-"
+        return f"{log} | {';'.join(self.snaps) or '-'} | {self.wmeta()}"
 
     def close(self):
         for fut, _ in self.pending.values():
@@ -204,14 +221,11 @@ def lean_ops(ops):
 
 
 def strip_model(ans):
-    """model answer -> (verdict, log without sids, snapshots without per-task finals and created/woken detail)"""
-    m = re.match(r"(\S+) LOG (\S+) SNAPS ?(.*)$", ans)
-    verdict, log, snaps = m.group(1), m.group(2), m.group(3)
+    """model answer -> (verdict, log, snapshots, waiter meta)"""
+    m = re.match(r"(\S+) LOG (\S+) SNAPS ?(\S*) W (\S+)$", ans)
+    verdict, log, snaps, wm = m.group(1), m.group(2), m.group(3), m.group(4)
     entries = [] if log == "-" else [tuple(int(x) for x in e.split(".")) for e in log.split(",")]
-    log3 = [(t, cb, v) for t, cb, _sid, v in entries]
-    snaps = [re.sub(r"(T\d+=d)\d+", r"\1", s) for s in (snaps.split(";") if snaps else [])]
-    snaps = [re.sub(r"(W\d+)=[ck]", r"\1=w", s) for s in snaps]
-    return verdict, log3, entries, snaps
+    return verdict, entries, (snaps.split(";") if snaps else []), wm
 
 
 # ---------------------------------------------------------------- history generation (online)
@@ -412,10 +426,10 @@ def spec_checks(scripts, ops, im):
 
 
 
-def check(res, label, scripts, ops, im, ans):
+def check(res, label, scripts, ops, im, ans, judge):
     text = scripts_text(scripts) + " " + " ".join(ops)
     inp = dict(case=text, label=label)
-    verdict, mlog, mentries, msnaps = strip_model(ans)
+    verdict, mlog, msnaps, mwm = strip_model(ans)
     nontrivial = len(im.dtasks) >= 2 and any(o.startswith("rel") for o in ops) and len(im.log) >= 2
     res.case(text, nontrivial)
     res.count("label:" + label)
@@ -423,12 +437,15 @@ def check(res, label, scripts, ops, im, ans):
     res.count("ops:%s" % ("<=6" if len(ops) <= 12 else "<=15" if len(ops) <= 30 else ">15"))
     for o in ops:
         res.count("op:" + o.split(":")[0] + ("!" if o.endswith("!") else ""))
-    overlap = max((s.count("=s") for s in im.snaps), default=0)
+    overlap = max((len(re.findall(r"s\d+", s.split("/")[3])) for s in im.snaps), default=0)
     res.count("max suspended dispatches:%d" % min(overlap, 4))
     for r in im.waiters:
         res.count("waiter:" + {"r": "returned", "x": "timed out", "c": "pending"}[r["state"]])
     bad = spec_checks(scripts, ops, im) + im.anomalies
-    if bad:
+    if judge != "pass":
+        res.fail("spec", inp, "C13.spec passes", dict(judge=judge, python_checks=bad, observation=im.obs_text()[:1500]),
+                 "C13.spec fails on the implementation's observation: " + judge + ("; " + "; ".join(bad)[:200] if bad else ""))
+    elif bad:
         res.fail("spec", inp, "C13 statement", bad, "; ".join(bad)[:300])
     elif verdict != "ok":
         res.fail("corr", inp, "a schedule the machine accepts", verdict, "the observed schedule is not accepted by the interleaving machine")
@@ -437,6 +454,8 @@ def check(res, label, scripts, ops, im, ans):
     elif msnaps != im.snaps:
         first = next((k for k, (a, b) in enumerate(zip(msnaps, im.snaps)) if a != b), min(len(msnaps), len(im.snaps)))
         res.fail("corr", inp, msnaps[first:first + 1], im.snaps[first:first + 1], f"data / task / waiter observables differ at loop run #{first}")
+    elif mwm != im.wmeta():
+        res.fail("corr", inp, mwm, im.wmeta(), "waiter start times / results differ")
     if nontrivial and len(res.samples) < 4 and len(ops) < 40:
         res.sample(dict(label=label, case=text, log=im.log, last=im.snaps[-1] if im.snaps else ""))
 
@@ -490,11 +509,12 @@ def run(ctx):
                     r[2].close()
                     runs.append(("enumerated", r[0], r[1], r[2]))
     answers = driver_batch(" ".join(["c13", scripts_text(s)] + lean_ops(ops)) for _, s, ops, _ in runs)
-    for (label, scripts, ops, im), ans in zip(runs, answers):
+    judges = driver_batch(" ".join(["c13judge", scripts_text(s)] + lean_ops(ops) + ["|", im.obs_text()]) for _, s, ops, im in runs)
+    for (label, scripts, ops, im), ans, judge in zip(runs, answers, judges):
         if ans == "bad-op":
             res.fail("corr", dict(case=scripts_text(scripts) + " " + " ".join(ops)), "parsable", ans, "driver rejected the request")
             continue
-        check(res, label, scripts, ops, im, ans)
+        check(res, label, scripts, ops, im, ans, judge)
     res.exhaustive = False
     if not quick:
         res.extra["enumerated_alphabet"] = ALPHABET
@@ -518,5 +538,6 @@ def replay(ctx):
             return res
         im.close()
     ans = driver_batch([" ".join(["c13", w[0]] + lean_ops(w[1:]))])[0]
-    check(res, "replay", scripts, w[1:], im, ans)
+    judge = driver_batch([" ".join(["c13judge", w[0]] + lean_ops(w[1:]) + ["|", im.obs_text()])])[0]
+    check(res, "replay", scripts, w[1:], im, ans, judge)
     return res
